@@ -11,9 +11,9 @@ import random
 from harness import gridlib, tlc
 
 FAMILY = {
-    "C01": ("c01_", ("P", "PAIR", "ZONE", "CM", "TM")),
-    "C02": ("c02_", ("P", "IRT", "STA", "CM", "TM")),
-    "C10": ("c10_", ("P", "PAIR", "IRT", "CM", "TM")),
+    "C01": ("c01_", ("P", "PAIR", "ZONE", "CM", "TM", "TMA")),
+    "C02": ("c02_", ("P", "IRT", "STA", "CM", "TM", "TMA")),
+    "C10": ("c10_", ("P", "PAIR", "IRT", "CM", "TM", "TMA")),
 }
 
 
@@ -101,6 +101,24 @@ def build(world, strata, prop, quick, rnd):
                 if not (-180 <= lonv < 180):
                     zone = 30
                 evs.append(world.tm_event(t, d, zone, ell, prj, "tm"))
+    if "TM" in kinds:
+        # ... and ANYWHERE within 30 degrees of a central meridian: random latitudes in the band, random longitude differences,
+        # values a hair off the equator / the central meridian / the band limits (event TMA)
+        ellc = ["grs80", "wgs84", "ans", "intl24", "rand", "rand"]
+        for k in range({"C01": 90, "C02": 40, "C10": 90}[prop] if quick else 2500):
+            ell = world.get_ell(ellc[k % 6])
+            prj = ("utm", gc.utm) if k % 3 else world.rand_prj()
+            P = prj[1]
+            zone = rnd.randint(1, 60)
+            cmz = zone * P.zonewidth + P.initialcm - P.zonewidth
+            if not (-180 <= cmz <= 180):
+                continue
+            lat = rnd.choice([rnd.uniform(-79.9, 83.9), rnd.uniform(-79.9, 83.9), rnd.uniform(-1e-6, 1e-6), 83.9999, -79.9999, rnd.uniform(-10, 10)])
+            dl = rnd.choice([rnd.uniform(-30, 30), rnd.uniform(-30, 30), rnd.uniform(-3, 3), rnd.uniform(-1e-7, 1e-7), 29.9999, -29.9999])
+            lonv = cmz + dl
+            if not (-180 <= lonv < 180):
+                continue
+            evs.append(world.tma_event(lat, lonv, zone, ell, prj, "tma"))
     if "ZONE" in kinds:
         step = 7 if quick else 1
         for pr in (("utm", gc.utm), ("zw8", gc.Projection(500000, 10000000, 0.9996, 8, -176))):
@@ -162,7 +180,7 @@ def run_family(ctx, prop):
     for (i, l, clause) in fails:
         ev = traces[i]["ev"][0]
         mine = clause.startswith(prefix) or clause.startswith("stuck") or \
-            (clause.endswith("_raised") and ((prop == "C01" and ev["k"] in ("P", "PAIR", "ZONE", "CM", "TM")) or (prop == "C02" and ev["k"] in ("IRT", "STA"))))
+            (clause.endswith("_raised") and ((prop == "C01" and ev["k"] in ("P", "PAIR", "ZONE", "CM", "TM", "TMA")) or (prop == "C02" and ev["k"] in ("IRT", "STA"))))
         if not mine:
             other[clause] = other.get(clause, 0) + 1
             continue
@@ -171,7 +189,7 @@ def run_family(ctx, prop):
             desc["rel"] = ev["rel"]
         if clause in ("oracle_start_value", "oracle_residuals"):
             raise tlc.MachineryError("in-spec oracle did not verify its own Newton results (%s)" % clause)
-        if ev["k"] in ("P", "IRT", "CM", "TM"):
+        if ev["k"] in ("P", "IRT", "CM", "TM", "TMA"):
             desc["prj"] = ev["o"].get("prj", {}).get("name")
         if clause == "c02_closure_geo_lon_literal":
             # literal 2e-9 deg clause: inside the documented output-rounding envelope iff the envelope clause holds
@@ -201,15 +219,20 @@ def selftest(world, prop):
     t2 = copy.deepcopy(base); t2["o"]["inv"]["lat"] = fix.enc(fix.dec(t2["o"]["inv"]["lat"]) + Fraction(5, 10 ** 9))
     t3 = copy.deepcopy(base); t3["o"]["inv"]["psf"] = fix.enc(fix.dec(t3["o"]["inv"]["psf"]) + Fraction(5, 10 ** 8))
     t4 = copy.deepcopy(irt); t4["o"]["back"]["e"] = fix.enc(fix.dec(t4["o"]["back"]["e"]) + Fraction(3, 10 ** 4))
-    fails = gridlib.validate([{"ev": [x]} for x in (base, irt, t1, t2, t3, t4)], None, None)
+    tma = world.tma_event(-33.123456789, 163.3456789, 55, ("intl24", gc.intl24), ("utm", gc.utm), "selftest")     # 16 deg off the CM
+    t5 = copy.deepcopy(tma); t5["o"]["fwd"]["e"] = fix.enc(fix.dec(t5["o"]["fwd"]["e"]) + Fraction(5, 10 ** 4))
+    t6 = copy.deepcopy(tma); t6["o"]["fwd"]["conv"] = fix.enc(fix.dec(t6["o"]["fwd"]["conv"]) + Fraction(5, 10 ** 9))
+    fails = gridlib.validate([{"ev": [x]} for x in (base, irt, t1, t2, t3, t4, tma, t5, t6)], None, None)
     got = {}
     for (i, l, c) in fails:
         got.setdefault(i, []).append(c)
-    base_bad = [c for c in got.get(0, []) + got.get(1, []) if not c.startswith("c02_closure_geo_lon_literal")]
+    base_bad = [c for c in got.get(0, []) + got.get(1, []) + got.get(6, []) if not c.startswith("c02_closure_geo_lon_literal")]
     out = {"baselines_clean": not base_bad, "hemisphere_flip": got.get(2, []), "lat_plus_5e-9": got.get(3, []),
-           "psf_plus_5e-8": got.get(4, []), "east_plus_0.3mm": got.get(5, [])}
+           "psf_plus_5e-8": got.get(4, []), "east_plus_0.3mm": got.get(5, []), "exact_tm_anywhere_east_plus_0.5mm": got.get(7, []),
+           "exact_tm_anywhere_conv_plus_5e-9": got.get(8, [])}
     ok = ("c01_hemisphere" in got.get(2, []) and "c02_closure_geo_lat" in got.get(3, []) and "c10_psf_fwd_inv" in got.get(4, [])
-          and "c02_closure_grid_east" in got.get(5, []))
+          and "c02_closure_grid_east" in got.get(5, []) and not base_bad and "c01_tm_easting" in got.get(7, [])
+          and "c10_tm_convergence" in got.get(8, []))
     if not ok:
         raise tlc.MachineryError("binding self-test failed: %s" % out)
     return out
